@@ -76,7 +76,7 @@ func cmdCheck(argv []string) {
 	if s := os.Getenv("VERIF_SEED"); s != "" {
 		seed, _ = strconv.Atoi(s)
 	}
-	ts := TierSpec{Tier: 0, Name: "quick", Workers: *workers, MaxSteps: 3_000_000, TimeoutMs: 10000, Budget: 8 * time.Minute, Samples: 6, CrossEvery: 20}
+	ts := TierSpec{Tier: 0, Name: "quick", Workers: *workers, MaxSteps: 3_000_000, TimeoutMs: 10000, Budget: 12 * time.Minute, Samples: 6, CrossEvery: 20}
 	if tierName == "thorough" {
 		ts = TierSpec{Tier: 1, Name: "thorough", Workers: *workers, MaxSteps: 20_000_000, TimeoutMs: 60000, Budget: 60 * time.Minute, Samples: 12, CrossEvery: 1}
 	}
